@@ -37,6 +37,7 @@ type VerifC04Part struct {
 	Deps                 [][2]uint32
 	Imports              []VerifC04Import // part.ImportRecordIndices, in order
 	Declared             [][2]uint32      // top-level declared symbols (links followed)
+	DeclaredKinds        []uint8          // ast.SymbolKind of each declared symbol (before following links)
 	Uses                 [][2]uint32      // symbol uses (links followed)
 }
 
@@ -107,6 +108,7 @@ func verifC04Dump(c *linkerContext, dump *VerifC04Dump) {
 				for _, declared := range part.DeclaredSymbols {
 					if declared.IsTopLevel {
 						p.Declared = append(p.Declared, verifC04Ref(c, declared.Ref))
+						p.DeclaredKinds = append(p.DeclaredKinds, uint8(c.graph.Symbols.Get(declared.Ref).Kind))
 					}
 				}
 				for ref := range part.SymbolUses {
